@@ -58,8 +58,8 @@ claim("C05",
       "DESIGN.md 3 C05")
 
 claim("C03",
-      "Theorems, for every tree, history, pattern list, matcher and primitive: verify names as altered exactly the visited files whose bytes no longer hash to the FIRST 'original' digest recorded for them (in that entry's own format, in the history the path is routed to) and as new exactly the visited files without such a reference -- hence never an unaltered file (no false alarm), and modification times do not occur in the model at all; the exit code is selected from the reported sets as verify 11 > 21 > 10 > 0, diff 10 > 21 > 0, create 11 > 10 > 30 > 0 with 0 only when nothing is missing (codes are obligations on the regenerated constants); what is visited is exactly the non-ignored part of the tree (traversal theorems of C02/C12) and ignored paths are filtered from the missing report. Tied to the code by lockstep runs over sealed trees (flat / nested, 1-3 generations, patterns) followed by 0-3 mutations (same-size bit flip with kept mtime, rewrite, delete file / empty dir, add, touch) and verify, diff, create; an independent oracle derives the expected exit code and named paths from the manifests read back with another XML reader.",
-      "PARTIAL: the end-to-end statement (create; mutate; verify) over the composed commands is not one theorem; the composition create->history->verify is carried by the correspondence and the oracle.",
+      "END-TO-END theorem (base case of the property's first sentence): sealing a well-formed tree that has no history anywhere -- any format request, -n or not, any ignore patterns -- and then running verify and diff on the untouched result gives exit 0 with empty reports, for every tree, matcher and hash primitive (composes traversal exactness, the session fold, validation, commit, the loader on the resulting tree, stability of the written pattern list and the verify fold). General theorem 'never a false alarm': any tree consistent with its loaded histories (every visited file hashes to the first original digest recorded for it; every recorded path visited or ignored) verifies and diffs with exit 0, whatever formats, patterns or nesting. Step theorems, for every tree, history, pattern list, matcher and primitive: verify names as altered exactly the visited files whose bytes no longer hash to the FIRST 'original' digest recorded for them (in that entry's own format, in the history the path is routed to) and as new exactly the visited files without such a reference -- hence never an unaltered file (no false alarm), and modification times do not occur in the model at all; the exit code is selected from the reported sets as verify 11 > 21 > 10 > 0, diff 10 > 21 > 0, create 11 > 10 > 30 > 0 with 0 only when nothing is missing (codes are obligations on the regenerated constants); what is visited is exactly the non-ignored part of the tree (traversal theorems of C02/C12) and ignored paths are filtered from the missing report. Tied to the code by lockstep runs over sealed trees (flat / nested, 1-3 generations, patterns) followed by 0-3 mutations (same-size bit flip with kept mtime, rewrite, delete file / empty dir, add, touch) and verify, diff, create; an independent oracle derives the expected exit code and named paths from the manifests read back with another XML reader.",
+      "PARTIAL: end to end only for the fresh flat tree; for several generations, nested histories and MUTATED trees (altered / removed / added => 11 / 10 / 21) the composition create -> history -> verify is carried by the step theorems plus the correspondence and the oracle.",
       "Coq proof (closed form of the verify fold, case analysis of the exit-code selection) + regenerated exit codes + lockstep mutation correspondence + independent oracle",
       "DESIGN.md 3 C03")
 claim("C09",
